@@ -83,6 +83,35 @@ AliasAllowed(r, m) ==
     [] m = "cb" -> r.b.kind = r.c.kind /\ r.c.kind \in MemKinds \cup {"reg"}
     [] OTHER -> FALSE
 
+(* ---- designation families of the two operands of a binary call.  Lane k of the result is the operation on the k-th DESIGNATED
+   operands whatever the relation between the two designations: the operands may be given by the same base pointer with
+   identical strides / index lists (the call then computes op(x, x)), with lists that agree in some lanes only, or with the
+   same cells in another order.  Level "base": operands a and b are one array (same base pointer), each with its own stride /
+   index list; the family is a relation between the two address sequences.  Level "word": separate storage, the family is the
+   same relation between the operand words (registers and broadcast elements have no address).
+     "eq"    identical in every lane            "one"   different in exactly lane dl
+     "h1"    identical in the first half of the lanes, different somewhere in the second half     "h2"  the other way round
+     "perm"  equal as multisets, different as sequences                                          "any"  no relation claimed
+   Together with an in-place mode (ca / cb) the only same-base designation inside the property is "eq" with the result's
+   address map: one array, one map (other overlaps of an operand with the result are partial overlaps). *)
+DesLevels == {"none", "base", "word"}
+DesFamilies == {"none", "eq", "h1", "h2", "one", "perm", "any"}
+Differ(nl, x, y) == {k \in Lanes(nl) : x[k + 1] # y[k + 1]}
+SameBag(nl, x, y) == \A k \in 1..nl : Cardinality({j \in 1..nl : x[j] = x[k]}) = Cardinality({j \in 1..nl : y[j] = x[k]})
+DesRel(f, nl, x, y, dl) ==
+  LET D == Differ(nl, x, y)  h == nl \div 2
+  IN CASE f = "eq"   -> D = {}
+       [] f = "h1"   -> D # {} /\ D \subseteq h..(nl - 1)
+       [] f = "h2"   -> D # {} /\ D \subseteq 0..(h - 1)
+       [] f = "one"  -> D = {dl}
+       [] f = "perm" -> D # {} /\ SameBag(nl, x, y)
+       [] f = "any"  -> TRUE
+       [] OTHER      -> FALSE
+SameBaseAllowed(r) == r.op # "copy" /\ r.a.kind \in MemKinds /\ r.b.kind \in MemKinds
+(* one array, two address maps: a cell designated by both operands holds one word *)
+SharedConsistent(nl, aa, ab, av, bv) == \A j, k \in 1..nl : aa[j] = ab[k] => av[j] = bv[k]
+Max2(x, y) == IF x >= y THEN x ELSE y
+
 (* Which result cells must differ from their pre-call content?  pre[k + 1] is the word the cell of result lane k is known
    to have held before the call (an operand word, in the alias modes) or <<>> when the cell held a pre-fill that is known
    to differ from anything written (two runs with complementary pre-fills); r = the result words after the call. *)
